@@ -19,7 +19,8 @@ def plan(tier, seed):
         ar, ac, br, bc, cr, cc = dims
         d = {"SCEN": sc, "AR": ar, "AC": ac, "BR": br, "BC": bc, "CR": cr, "CC": cc, "APAT0": pat, "VERIF_DFCC": None, "VSEED": 1 + seed}
         if unit: d["UNITDIAG"] = None
-        qs.append(Q("frame-s%d%s" % (sc, tag), "c15.c", d, cfg="ts", group="c15-s%d" % sc, dfcc="scen", timeout=to, fallback="kissat", mem_gb=12))
+        qs.append(Q("frame-s%d%s" % (sc, tag), "c15.c", d, cfg="ts", group="c15-s%d" % sc, dfcc="scen", timeout=to, fallback="kissat", mem_gb=12,
+                    cbmc_flags=("--max-field-sensitivity-array-size", "16")))  # keeps symex fast should a static header pool be compiled in (DESIGN F5)
     D(0, (3, 70, 3, 70, 3, 70)); D(0, (2, 577, 2, 577, 2, 577), "-wide")
     D(1, (3, 5, 5, 3, 3, 3)); D(1, (2, 5, 5, 70, 2, 70), "-va")
     for (m, n) in [(5, 70), (7, 8), (12, 15), (20, 27), (40, 45)]:
